@@ -24,6 +24,24 @@ UNRELATED = [
     "BEGIN { x = 'a' ~ /a/\n y = 'ab' ~ 'b$'\n print x, y }",
     "BEGIN { print 1/0 }",
     "BEGIN { print ( }",
+    # runs that fail half way through producing output (anything buffered or pooled across runs shows in the next run)
+    "BEGIN { printf('stale %s and %f\\n', 'text', null) }",
+    "BEGIN { printf('left over|%5s|%d', 'ab', 1) }",
+    "BEGIN { printf('%v %v %s', [1, 2], {a: 1}, 3) }",
+    "BEGIN { printf('abc %') }",
+    "BEGIN { printf('only one %s %s', 'arg') }",
+    "{ printf('%s is %f\\n', $, $) }",
+    "BEGIN { print 'before', 1/0 }",
+    "BEGIN { print json([1, {a: 2}]), json(json) }",
+    "BEGIN { a = [1, 2]\n print a, a.nope() }",
+    "BEGIN { printf('%99999999s', 'x') }",
+]
+
+PRINTF_PROGS = [
+    "{ printf('%s\\n', $ + '') }", "{ printf('%v|%5v|%-5v|\\n', $, $, $) }", "BEGIN { printf('%f %s\\n', 1.5, 'z')\n printf('%%\\n') }",
+    "BEGIN { printf('a')\n printf('b')\n print 'c' }", "{ printf('%v', $) } END { print ''\n print 'done' }",
+    "BEGIN { printf('%05f|%-8s|%3v\\n', 2.5, 'ab', null) }", "{ print\n printf('%v\\n', [$, $]) }",
+    "BEGIN { printf('') \n printf('x\\n') }",
 ]
 
 METHOD_PROGS = [
@@ -139,6 +157,12 @@ class C10(Check):
             prog = "{ " + "\n ".join(tests) + " }"
             inp = json.dumps([rng.choice(["a", "ab", "ba", "abc", "b", "", "10", "x1", "hello", "hallo", 5, 10, None]) for _ in range(rng.randint(1, 4))])
             cases.append(Case(cid, simple_run(cid, prog, [inp]), {"prog": prog, "inputs": [inp], "selectors": []}, False, ("regex",)))
+        # printf after earlier runs whose printf failed half way (see UNRELATED)
+        for j in range(24 if tier == "quick" else 200):
+            cid = "f%d" % j
+            prog = PRINTF_PROGS[j % len(PRINTF_PROGS)]
+            inp = json.dumps(rng.choice([["sponge", "soap"], [1, 2.5], {"b": 1, "a": "x"}, "s", [[1], {"k": None}]]))
+            cases.append(Case(cid, simple_run(cid, prog, [inp]), {"prog": prog, "inputs": [inp], "selectors": []}, False, ("printf",)))
         for j, prog in enumerate(METHOD_PROGS):
             cid = "m%d" % j
             inp = json.dumps({"b": 1, "a": [1, 2], "c": "s"})
